@@ -31,6 +31,9 @@ def var_pool(i, kind, p):
                                                          "extendedTimeConstant": "50", "extendedLangevinDamping": "0"}), {a}
     if kind == "ztf":
         return name, cvz.zvar(name, a, -4, 8, 0.5, extra={"outputTotalForce": "on", "outputAppliedForce": "on"}), {a}
+    if kind == "zslow":
+        # computed every second step only; its biases run on the same schedule
+        return name, cvz.zvar(name, a, -4, 8, 0.5, extra={"timeStepFactor": "2"}), {a}
     if kind == "dist":
         b = ((i + 1) % 4) + 1
         return name, ("colvar {\n  name %s\n  width 0.5\n  lowerBoundary 0\n  upperBoundary 12\n  distance {\n    group1 { atomNumbers %d }\n"
@@ -67,6 +70,8 @@ def spec_seq(draw, tier):
 
 
 def bias_cfg(kind, name, vnames, o, vkinds):
+    if "zslow" in vkinds:
+        return bias_cfg_("harmonic", name, vnames, o, vkinds)[:-1] + "  timeStepFactor 2\n}"
     txt = bias_cfg_(kind, name, vnames, o, vkinds)
     # some stateless restraints act every 2nd / 3rd step only: they sleep in between, and may be deleted while asleep
     if kind in ("harmonic", "walls", "linear") and o.get("pick2", 0) % 5 == 4 and "zext" not in vkinds:
@@ -318,10 +323,16 @@ def check_seq(spec, ctx, variant="rel"):
                 cb = cvB.get(c["name"])
                 if cb is None:
                     return Outcome(False, msg="variable %s missing in the clean run" % c["name"], sig="harness", case_text=full)
-                if (not c["active"] or not cb["active"]) and any(bn in slow_b and c["name"] in vs_ for bn, vs_ in live_b.items()) and \
-                        any(bn in doomed and c["name"] in vs_ for bn, vs_ in live_b.items()):
-                    continue      # in one of the two runs its only users are asleep at this step (documented: it is not computed then),
-                    #               because the other run has one more, or one less, user of the variable
+                if not c["active"] and not cb["active"]:
+                    continue      # asleep in both runs (all its users are asleep at this step): the value is whatever was computed last
+                if c["active"] != cb["active"]:
+                    if any(bn in slow_b and c["name"] in vs_ for bn, vs_ in live_b.items()) and \
+                            any(bn in doomed and c["name"] in vs_ for bn, vs_ in live_b.items()):
+                        continue  # in one of the two runs its only users are asleep at this step (documented: it is not computed then),
+                        #           because the other run has one more, or one less, user of the variable
+                    return Outcome(False, msg="step %d: surviving variable %s is %s, but %s had the deleted objects never existed" % (
+                        a["it"], c["name"], "computed" if c["active"] else "asleep", "computed" if cb["active"] else "asleep"),
+                        sig="survivor_activity", case_text=full)
                 if c["x"] != cb["x"]:
                     return Outcome(False, msg="step %d: value of surviving variable %s is %r, but %r had the deleted objects never existed" %
                                    (a["it"], c["name"], c["x"], cb["x"]), sig="survivor_value", case_text=full)
